@@ -133,25 +133,6 @@ func sinkFacts(f map[string]flabel) []string {
 	return ks
 }
 
-func hasFact(f map[string]flabel, req string) bool {
-	if strings.HasPrefix(req, "heap:") {
-		if f[req] != lNone {
-			return true
-		}
-		// a direct sink is at least as strong as a heap one
-		return f[strings.TrimPrefix(req, "heap:")] != lNone
-	}
-	i := strings.LastIndex(req, ":")
-	if i < 0 {
-		return false
-	}
-	kind, lab := req[:i], req[i+1:]
-	l := f[kind]
-	if lab == "raw" {
-		return l == lRaw
-	}
-	return l != lNone
-}
 
 // fset: sink facts with per-kind site counts.
 type fset struct {
